@@ -2,6 +2,7 @@ package props
 
 import (
 	"fmt"
+	"net/http"
 	"runtime"
 	"strings"
 	"sync"
@@ -44,6 +45,10 @@ func (cf *c19Config) mk(t *rt.Table) *restful.Container {
 			resp.AddHeader("X-Attr-Leak", fmt.Sprint(prev))
 		}
 		req.SetAttribute("req-id", id)
+		// application code may also write into the parameter map it is handed; what it writes belongs to this request
+		if pp := req.PathParameters(); pp != nil {
+			pp["x-req-"+id] = "1"
+		}
 		resp.AddHeader("X-Req-Echo", id)
 		chain.ProcessFilter(req, resp)
 	})
@@ -62,6 +67,11 @@ func (cf *c19Config) mk(t *rt.Table) *restful.Container {
 	for i := range t.Svcs {
 		c.Add(rt.NewService(&t.Svcs[i], nil, bo, i))
 	}
+	// a plain handler behind the container filters (reachable through ServeHTTP)
+	c.HandleWithFilter("/hwf/", http.HandlerFunc(func(w http.ResponseWriter, r *http.Request) {
+		w.WriteHeader(200)
+		w.Write([]byte("plain:" + r.URL.Path + ":" + r.Header.Get("X-Req")))
+	}))
 	return c
 }
 
@@ -92,7 +102,7 @@ func c19Sig(o *rt.Outcome) string {
 
 func c19(ctx *core.Ctx) {
 	quietLogs()
-	ctx.Rule("generated configurations (route table on the router's full template fragment, recording filters at all three levels labelled with their route/service, attribute filter, 0-5 extra container filters, CORS filter with configured or computed methods, OPTIONS filter, content encoding, handlers writing raw bytes or negotiated entities; both routers; Dispatch or ServeHTTP). For each request of a multiset of 40 (hits, near misses, adversarial, malformed Accept, CORS actual and preflight requests for different URLs, Accept-Encoding) the reference is the answer of a FRESH container to that request alone through the same entry point. Then (a) a 200-request sequential history in random order with repetitions, (b) batches released together from 16 goroutines, (c) the sequential history again with trace logging on: status, all headers, decoded body, path parameters, selected route and attributes seen by every filter/handler must equal the reference. Race detector on. Non-trivial = a compared response of a request that ran at least one filter or handler; distinct by (configuration shape, phase, outcome class).")
+	ctx.Rule("generated configurations (route table on the router's full template fragment, recording filters at all three levels labelled with their route/service, a filter writing a per-request attribute and a per-request key into PathParameters(), a HandleWithFilter handler, 0-5 extra container filters, CORS filter with configured or computed methods, OPTIONS filter, content encoding, handlers writing raw bytes or negotiated entities; both routers; Dispatch or ServeHTTP). For each request of a multiset of 40 (hits, near misses, adversarial, malformed Accept, CORS actual and preflight requests for different URLs, Accept-Encoding) the reference is the answer of a FRESH container to that request alone through the same entry point. Then (a) a 200-request sequential history in random order with repetitions, (b) batches released together from 16 goroutines, (c) the sequential history again with trace logging on: status, all headers, decoded body, path parameters, selected route and attributes seen by every filter/handler must equal the reference. Race detector on. Non-trivial = a compared response of a request that ran at least one filter or handler; distinct by (configuration shape, phase, outcome class).")
 	ctx.Assume("the reference is per (request, entry point): ServeHTTP answers unregistered prefixes from net/http's mux")
 	defer restful.EnableTracing(false)
 	configs := ctx.N(50, 1500)
@@ -139,6 +149,10 @@ func c19(ctx *core.Ctx) {
 				req.Hdr["Origin"] = "http://evil.com"
 			case 4:
 				req.Method = "OPTIONS"
+			case 6:
+				if cf.Entry == rt.ServeHTTP {
+					req = rt.Req{Method: "GET", Path: "/hwf/" + r.Pick(rt.Literals), Hdr: map[string]string{}, Class: "handle-with-filter"}
+				}
 			case 5:
 				// negotiation with an Accept header the framework has to cope with (well-formed and malformed q-values)
 				req = rt.HitReq(r, &t.Svcs[0], neg)
